@@ -4,6 +4,8 @@
 
 mod crammod;
 mod diffmod;
+mod escapemod;
+mod expectmod;
 mod mdmod;
 mod rulesmod;
 mod util;
@@ -17,6 +19,9 @@ fn main() {
         "diff-probe" => diffmod::probe(&args),
         "rules-replay" => rulesmod::replay(&args),
         "md-replay" => mdmod::replay(&args),
+        "escape-replay" => escapemod::replay(&args),
+        "escape-sweep" => escapemod::sweep(&args),
+        "expect-replay" => expectmod::replay(&args),
         "cram-replay" => crammod::replay(&args),
         _ => util::tool_error(&format!("unknown sub-command `{cmd}`")),
     }
